@@ -322,7 +322,10 @@ def backend_run_contract(ex, lid, prop, cls=RW, inject=None):
         cls + '._run_backend', lid=lid, name=f'{prop}.{lid} RemoteWorker._run_backend always reports a pair then the user_state on the data socket',
         params={'self': ('const', None)}, self_class=cls, setup=setup,
         all_exits=[first_is_pair, genuine, state_second],
-        raises={'AnyBaseException': None, 'ConnectionClosedError': None}, raises_only=['AnyBaseException', 'ConnectionClosedError'],
+        raises={'AnyBaseException': None, 'ConnectionClosedError': None},
+        # under injection the pending WorkerTerminatedError itself may leave the function once everything has been reported, and the handler that talks to
+        # the server pipe again may meet a server that is gone (EOFError / OSError): both are environment outcomes, what matters is all_exits
+        raises_only=['AnyBaseException', 'ConnectionClosedError'] + (['WorkerTerminatedError', 'EOFError', 'OSError'] if inject is not None else []),
         inject=inject,
         options={'__opaque_call__': user_call_inj, 'target_raises': ['AnyException', 'AnyBaseException'], 'recv_closed_check': False,
                  '__call_hooks__': hooks, 'send_raises': {'data': ['ConnectionClosedError']}, 'assert_mode': 'oblige',
